@@ -224,6 +224,40 @@ theorem do_transparent_unless_raise {α} (c : Cfg) (q : Quiet c) (sp : SyncPhase
   refine ⟨h.v, ?_, h.d⟩
   rw [← delivered_view, h.v, delivered_view]
 
+/-- **do_callbacks_once_in_order.** `do_action` (any subset of callbacks) / `do(observer)`, `do_after_next`,
+`do_on_terminate`, `do_after_terminate`, `do_on_subscribe`, no callback raising (`Quiet c`): for every history the
+deliveries and callback invocations in the log are exactly, in order, each delivery accompanied by the invocation
+of the corresponding callback with the same notification (`expect c`: immediately before the delivery for
+`do_action`/`do_on_terminate`, immediately after it for `do_after_next`/`do_after_terminate`, there only if the
+subscriber's callback returned) — every callback sees every corresponding notification once, in order, and nothing
+else.  `do_on_subscribe`'s action runs exactly once, before everything else. -/
+theorem do_callbacks_once_in_order {α} (c : Cfg) (hp : Plain c) (q : Quiet c) (sp : SyncPhase α) (evs : List (Ev α)) :
+    cbShape c (run c sp evs).log ∧
+    (c.oper = .doOnSubscribe → actCount .subscribe (run c sp evs).log = 1 ∧
+      (run c sp evs).log.head? = some (.act .subscribe none false)) := by
+  obtain ⟨_, shp, cnt, hd⟩ := ok_run c hp q sp evs
+  refine ⟨shp, fun hop => ?_⟩
+  have hk : kOf c = 1 := by simp [kOf, hop]
+  exact ⟨by rw [cnt, hk], hd hk⟩
+
+/-- **do_on_dispose_exactly_once.** `do_on_dispose` with a non-raising action, `subscribe` having returned: the
+action runs exactly once iff a terminal notification was delivered or the history contains a `dispose`, zero times
+otherwise, after every downstream callback. -/
+theorem do_on_dispose_exactly_once {α} (c : Cfg) (hc : c.oper = .doOnDispose) (hnr : ∀ k, c.actRaises k = false)
+    (sp : SyncPhase α) (evs : List (Ev α)) (hh : (subscribePhase c sp : St α).d.handle = true) :
+    actCount .dispose (run c sp evs).log ≤ 1 ∧
+    (actCount .dispose (run c sp evs).log = 1 ↔ (hasTerm (run c sp evs).log = true ∨ hasDispose evs = true)) ∧
+    noEmitAfterAct .dispose (run c sp evs).log = true := by
+  rcases dod_subscribePhase (α := α) c hc hnr sp with h | ⟨hf, _⟩
+  · have h := dod_run_inv c hc hnr evs _ _ h
+    obtain ⟨cnt, sad, cur, dst, ust, trg, hdl, ret, ord⟩ := h
+    simp only [run]
+    refine ⟨?_, ?_, ord⟩
+    · rw [cnt]; cases (runFrom c (subscribePhase c sp) evs).o.rDisposed <;> simp
+    · rw [cnt, ← sad, trg, ret]
+      cases hasTerm (runFrom c (subscribePhase c sp) evs).log <;> cases hasDispose evs <;> simp
+  · rw [hf.hdl] at hh; cases hh
+
 /-- behaviour when a callback *does* raise (`do_action`'s `on_next`): the exception is delivered as `on_error`,
 nothing else is delivered afterwards, and the callback keeps being invoked for elements the source pushes before
 it is unsubscribed (here: inside `subscribe`). -/
@@ -233,7 +267,12 @@ theorem do_action_raise_becomes_error :
     [.act .next (some (.next 1)) false, .emit (.next 1) false, .act .next (some (.next 2)) true, .emit (.error "boom") false,
      .act .next (some (.next 3)) false, .act .completed none false, .srcDispose] := by decide
 
-/-! non-vacuity: `Quiet` is satisfiable and the two runs are non-trivial -/
+/-! non-vacuity: `Quiet` and `Plain` are satisfiable and the runs are non-trivial -/
+example : Plain { oper := .doAfterTerminate } := by simp [Plain]
+example : (run (α := Nat) { oper := .doAfterTerminate } {} [.src (.next 1), .src .completed]).log =
+    [.emit (.next 1) false, .emit .completed false, .srcDispose, .act .afterTerminate none false] := by decide
+example : (run (α := Nat) { oper := .doOnDispose } {} [.src (.next 1), .dispose, .src .completed]).log =
+    [.emit (.next 1) false, .act .dispose none false, .srcDispose] := by decide
 example : Quiet { oper := .doAction } := ⟨fun _ => rfl, fun h => (by cases h), fun h => (by cases h)⟩
 example : (run (α := Nat) { oper := .doAction, subRaises := fun k => k == 1 } { emits := [.next 1] }
       [.src (.next 2), .src (.next 3), .dispose, .src (.next 4)]).log =
